@@ -297,6 +297,44 @@ theorem reach_providers_statement_false : ¬ ReachProvidersAgreeStatement := by
   revert this
   decide
 
+/-! ## 6c. walks with a stop set (shallow boundary of the other side) over a cached parent source -/
+
+/-- `cache_transparent` lifted to the ancestry walk with a stop set: when the commit-graph agrees with the object
+store on every commit it knows, the walk over "graph, else store" equals the walk over the store — for EVERY
+shallow set, every `common` set, every start and every fuel.  (The shallow test precedes both parent sources:
+translator obligation on `_collect_ancestors` and `ParentsProvider.get_parents`.) -/
+theorem walk_cache_transparent (c : Nat → Option (List Nat)) (store : Nat → List Nat)
+    (h : ∀ k v, c k = some v → store k = v) (common shallow : List Nat) (fuel : Nat) (heads seen : List Nat) :
+    collectAncestorsSh (withCache c store) common shallow fuel heads seen =
+      collectAncestorsSh store common shallow fuel heads seen := by
+  rw [cache_transparent c store h]
+
+/-- with an empty stop set the walk is the plain `_collect_ancestors` -/
+theorem walk_no_shallow (parentsOf : Nat → List Nat) (common : List Nat) :
+    ∀ (fuel : Nat) (queue seen : List Nat),
+      collectAncestorsSh parentsOf common [] fuel queue seen = collectAncestors parentsOf common fuel queue seen := by
+  intro fuel
+  induction fuel with
+  | zero => intro q s; rfl
+  | succ f ih =>
+    intro q s
+    cases q with
+    | nil => rfl
+    | cons e q =>
+      simp only [collectAncestorsSh, collectAncestors, List.contains_nil, Bool.false_eq_true, if_false, ih]
+
+/-- a shallow commit is reported, nothing below it is entered through it (diamond, boundary {2}: from 4 the walk
+gives {4, 2, 3, 0}; commit 1 is only reachable through 2) -/
+example : collectAncestorsSh diamond [] [2] 16 [4] [] = [4, 2, 3, 0] := by decide
+
+/-- NEGATION WITNESS for a walk whose shallow test guards only the object-load branch: with a (correct!) graph
+entry for the boundary commit 2 it walks below the boundary (and reports commit 1), the real order of tests
+does not -/
+theorem shallow_after_graph_counterexample :
+    collectAncestorsShGraphFirst (fun k => if k = 2 then some [1] else none) diamond [] [2] 16 [4] [] = [4, 2, 3, 1, 0] ∧
+    collectAncestorsSh (withCache (fun k => if k = 2 then some [1] else none) diamond) [] [2] 16 [4] [] = [4, 2, 3, 0] := by
+  decide
+
 /-! ## 7. EWAH codec -/
 
 open Dulwich.Ewah in
